@@ -51,7 +51,7 @@ class Ctl:
         self.calls = {}
         self.done = {}
         self.waiting = {}  # op -> list of Events
-        self.handles = {}  # id(file) -> (path, mode)
+        self.handles = []  # one entry id(file) per open handle (MemoryPathIO hands out the same buffer object twice)
         self.opened = 0
         self.released_all = False
         self.active = False  # gates and call counts start after the file system has been set up
@@ -94,7 +94,7 @@ class SpyIO(aioftp.MemoryPathIO):
     async def _open(self, path, mode="rb", *args, **kwargs):
         await CTL.gate("open")
         f = await super()._open(path, mode, *args, **kwargs)
-        CTL.handles[id(f)] = (str(path), mode)
+        CTL.handles.append(id(f))
         CTL.opened += 1
         return f
 
@@ -118,7 +118,8 @@ class SpyIO(aioftp.MemoryPathIO):
         try:
             await CTL.gate("close")
         finally:
-            CTL.handles.pop(id(file), None)
+            if id(file) in CTL.handles:
+                CTL.handles.remove(id(file))
             await super().close(file)
 
     async def stat(self, path):
@@ -368,9 +369,9 @@ class Run:
                 self.data[-1].writer.close()
             await net.settle()
         elif kind == "dread":
-            if self.data:
-                self.data[-1].server_t.out.release()
-                self.data[-1].start_reading()
+            for d in (self.data if arg == "all" else self.data[-1:]):
+                d.server_t.out.release()
+                d.start_reading()
             await net.settle()
         elif kind == "release":
             CTL.release(arg)
@@ -483,6 +484,43 @@ class Run:
                 run.do_cut(case.get("cut_how", "rst"))
 
         simnet._orig_pump = counting
+        # asyncio transport semantics simnet leaves out: close() with unsent bytes in the write buffer does NOT report
+        # connection_lost (so StreamWriter.wait_closed() does not return) until the buffer has been flushed to the
+        # peer; bytes up to `sockbuf` count as taken by the kernel.  Installed for the duration of the run.
+        sockbuf = case.get("sockbuf", 0)
+        orig_close = simnet.MemTransport.close
+
+        def lingering_close(t):
+            if t.closing:
+                return
+            t.closing = True
+            t.out.push("eof")
+            t.out.push("gone")
+
+            def settle_close():
+                if t.lost_called:
+                    return
+                if t.out.bytes_queued <= sockbuf or t.out.dropped:
+                    t._connection_lost(None)
+                else:
+                    t.lingering = True
+
+            net.loop.call_soon(settle_close)
+
+        simnet.MemTransport.close = lingering_close
+        inner_counting = counting
+
+        def counting_linger(link):
+            inner_counting(link)
+            t = link.src
+            if getattr(t, "lingering", False) and not t.lost_called and link.bytes_queued <= sockbuf:
+                t.lingering = False
+                t._connection_lost(None)
+
+        simnet._orig_pump = counting_linger
+        old_water = (simnet.LOW_WATER, simnet.HIGH_WATER)
+        if case.get("water"):
+            simnet.LOW_WATER, simnet.HIGH_WATER = case["water"]
         # observe the state abor() acts on: wrap the undecorated body (the decorators stay as they are)
         self.abor_obs = []
         unhook = lambda: None
@@ -565,6 +603,8 @@ class Run:
                 self.others_ok.append(codes(ls) == [257])
         finally:
             simnet._orig_pump = orig
+            simnet.MemTransport.close = orig_close
+            simnet.LOW_WATER, simnet.HIGH_WATER = old_water
             srv_logger.removeHandler(spy_handler)
             srv_logger.setLevel(old_level)
             srv_logger.propagate = old_prop
@@ -677,9 +717,11 @@ def abstract(run):
         lst = ["taking"]
     else:
         lst = ["none"]
-    workers = []
-    for t in conn.extra_workers:
-        workers.append(t)
+    def born(t):
+        n = t.get_name()
+        return int(n.split("-")[-1]) if n.split("-")[-1].isdigit() else 0
+
+    workers = sorted(conn.extra_workers, key=born)
     return {"conn": conn, "greeted": bool(conn.acquired), "user": fut.user.done(), "lst": lst,
             "data": fut.data_connection.done(), "tasks": workers}
 
@@ -703,7 +745,21 @@ def model_trace(abs_, wabs, pool_unused=None):
         if abs_["data"]:
             evs.append([DATA])
         return evs
-    assert len(wabs) == 1, "one transfer at a time"
+    if len(wabs) > 1:
+        # several transfers alive in one session: each got its own data connection, then ran to its stage
+        for i, (kind, stage, moved, rest, n) in enumerate(w[:5] for w in wabs):
+            tag = stage[0]
+            if tag == 1 and not stage[1] and i == len(wabs) - 1:
+                evs += [[SPAWN, kind, list(range(moved + rest))], [WSTEP, i]]
+                continue
+            if tag not in (3, 4, 5, 6, 7):
+                raise ValueError(("several workers", stage))
+            steps = {3: 2 + (stage[1] or 0), 4: 2 + n, 5: 3 + n + moved, 6: 3 + n + moved + 1 + (n - 1 - (stage[1] or 0)),
+                     7: 3 + n + moved + 1 + n}[tag]
+            evs += [[DATA], [SPAWN, kind, list(range(moved + rest))]] + [[WSTEP, i]] * steps
+        if abs_["data"]:
+            evs.append([DATA])
+        return evs
     kind, stage, moved, rest, n = wabs[0][:5]
     payload = list(range(moved + rest))
     tag = stage[0]
@@ -772,6 +828,8 @@ def resolve_workers(obs, facts, block, ever_data=True):
             moved = -(-(obs["wlog"][-1] if obs["wlog"] else 0) // block)
         else:
             moved = obs["lines"][-1] if obs["lines"] else 0
+        if len(obs["abs"]["workers"]) > 1:
+            moved = 0  # not attributable to one of several transfers; irrelevant for the predictions
         rest = 0
         if stage[0] in (3, 6):
             if f["file_idx"] is None:
@@ -900,6 +958,33 @@ def transfer_setup(verb, place, size=None, rest=None, listen="PASV"):
         files["f"] = 300000
         block = 65536
         steps += [["dconn_noread"], ["cmd", c]]
+    elif kind == "stalled":
+        # a download against a peer that is connected and does not read, the transport's write buffer full
+        # (case["water"] lowers simnet's flow-control marks so that a small file is enough)
+        files["f"] = 64
+        steps += [["dconn_noread"]] + pre + [["cmd", c]]
+    elif kind == "two":
+        # TWO transfers alive in one session: the first one is held by its peer, then PASV again, a second data
+        # connection and a second transfer command.  place = ("two", first, second) with first/second in
+        # "stor" (upload waiting for bytes) | "retr_stalled" (download, peer not reading) | "retr_gate" (back-end read suspended)
+        def one(which, name):
+            if which == "stor":
+                return [["dconn"], ["cmd", f"STOR {name}"], ["dsend", 3]]
+            if which == "retr_stalled":
+                return [["dconn_noread"], ["cmd", "RETR f"]]
+            if which == "retr_gate":
+                return [["dconn"], ["cmd", "RETR f"]]
+            if which == "list_gate":
+                return [["dconn"], ["cmd", "LIST d"]]
+            raise ValueError(which)
+
+        if "retr_stalled" in place[1:]:
+            files["f"] = 64
+        if "retr_gate" in place[1:]:
+            gates = [["read", 2]]
+        if "list_gate" in place[1:]:
+            gates = gates + [["stat", 2]]
+        steps += one(place[1], "up") + [["cmd", listen]] + one(place[2], "up2")
     elif kind == "ticks":
         steps += [["dconn"]] + pre + [["ticksend", [c, place[1], "ABOR"]]]
     elif kind == "pipe":
